@@ -1,22 +1,23 @@
-\* exhaustive TLC configuration for property C13 (thorough tier) (generated by spec/mkcfg.py; constants explained in RcProxy.tla)
+\* exhaustive TLC configuration for property C12 (thorough tier) (protocol error with requests in flight; constants explained in RcProxy.tla)
 SPECIFICATION Spec
 CONSTANTS
   c1 = c1
   c2 = c2
-  Clients = {c1}
+  Clients = {c1, c2}
   Nodes = {"n1", "n2"}
   SlotNode <- Slot2
-  Menu <- MenuFwd
-  MaxReq <- MR1x2
-  AnswerKinds <- AKredir
+  Menu <- MenuBad
+  MaxReq <- MR2x2
+  AnswerKinds <- AKok
   MaxMsg = 4
   TimeoutOn = FALSE
   MaxBkClose = 0
   AllowCliClose = FALSE
-  MaxHops = 2
+  MaxHops = 0
   MaxBurst = 2
   CanonKinds = TRUE
   PoolAny = TRUE
+SYMMETRY Symm
 INVARIANTS NoViolation DoneMsgHasDoneFrags QueuedMsgsInUse LiveFragPeer
 VIEW view
 CHECK_DEADLOCK FALSE
